@@ -4,3 +4,4 @@ pub mod xlsx;
 pub mod ods;
 pub mod cfb;
 pub mod biff8;
+pub mod xlsb;
